@@ -25,6 +25,10 @@ type Region struct {
 	Server      string
 	Offline     bool // hosted by nobody (answers NSRE everywhere)
 	NotInMeta   bool // served, but hbase:meta has no row for it (yet)
+	// MetaReplicaOnly: the hbase:meta row has no location for the region itself
+	// (primary in transition: info:server missing or empty) but carries the
+	// columns of a read replica (info:server_0001 ...) on this server
+	MetaReplicaOnly string
 	MetaOffline bool // its hbase:meta row carries offline=true (a region in transition / a split parent)
 }
 
@@ -427,6 +431,17 @@ func (c *Cluster) SetInMeta(name []byte, in bool) {
 	}
 	c.mu.Unlock()
 	c.Log.Add(Event{Kind: "fault", Info: fmt.Sprintf("region-in-meta=%v", in), Region: string(name)})
+}
+
+// SetMetaReplicaOnly makes the hbase:meta row of a region list only a read
+// replica's location (on server addr); "" restores the normal row.
+func (c *Cluster) SetMetaReplicaOnly(name []byte, addr string) {
+	c.mu.Lock()
+	if r := c.regionByNameLocked(name); r != nil {
+		r.MetaReplicaOnly = addr
+	}
+	c.mu.Unlock()
+	c.Log.Add(Event{Kind: "fault", Info: "region-in-meta=replica-only@" + addr, Region: string(name)})
 }
 
 // SplitRegion replaces a region by two daughters with new ids.
